@@ -114,6 +114,7 @@ def run_bin(binary, args, timeout=3600, env=None, stdin=None, check=True):
     e = dict(os.environ)
     if env:
         e.update(env)
+    timeout = int(timeout * float(os.environ.get("VERIF_TIMEOUT_SCALE", "3")))
     r = subprocess.run([binary] + [str(a) for a in args], capture_output=True, text=True, timeout=timeout, env=e,
                        input=stdin)
     if check and r.returncode != 0:
@@ -148,6 +149,8 @@ def tlc(module, cfg, env=None, workers=8, timeout=1800, simulate=None, depth=Non
     """
     mpath = module if os.path.isabs(module) else os.path.join(SPEC, module)
     cpath = cfg if os.path.isabs(cfg) else os.path.join(SPEC, cfg)
+    # timeouts only keep a stuck JVM from hanging the check; they are wall-clock, so leave room for a busy machine
+    timeout = int(timeout * float(os.environ.get("VERIF_TIMEOUT_SCALE", "3")))
     meta = os.path.join(WORK, "tlc", "%d_%d" % (os.getpid(), int(time.time() * 1e6) % 10**9))
     os.makedirs(meta, exist_ok=True)
     # java is invoked directly (not through the `tlc` wrapper) so that -Xss also sizes the main thread,
